@@ -22,6 +22,7 @@ structure Idle (g : Cfg) (p : P) : Prop extends Quiet p where
   cl : p.cl = []
   trailer : p.trailer = []
   chunked : p.chunked = false
+  noBody : p.noBody = false
   headerExists : p.headerExists = false
   bodyHeld : p.bodyHeld = 0
 
@@ -34,7 +35,8 @@ theorem idle_handleMessage (g : Cfg) (p : P) (hq : Quiet p) (hx : p.headerExists
 
 /-- blank line of a message without framing fields: no body -/
 theorem end_none (g : Cfg) (p : P) (tok rest : Bytes) (acc : List Ev)
-    (hp : p.st = .headerKeyBefore) (hq : Quiet p) (hte : p.te = []) (hcl : p.cl = []) (hch : p.chunked = false) :
+    (hp : p.st = .headerKeyBefore) (hq : Quiet p) (hte : p.te = []) (hcl : p.cl = []) (hch : p.chunked = false)
+    (hnb : p.noBody = false) :
     ∃ p', Idle g p' ∧ specFeed (M g) p tok ([CR, LF] ++ rest) acc =
       specFeed (M g) p' [] rest (acc ++ [.contentLength (-1), .complete]) := by
   refine ⟨handleMessage g { p with contentLength := -1, st := .headerOverLF, headerExists := false }, ?_, ?_⟩
@@ -42,10 +44,27 @@ theorem end_none (g : Cfg) (p : P) (tok rest : Bytes) (acc : List Ev)
   · simp only [List.cons_append, List.nil_append]
     rw [spec_step g p tok CR _ acc { p with contentLength := -1, st := .headerOverLF } .next [.contentLength (-1)]
           (by simp [block, hp])
-          (by simp [byteStep, hp, endOfHeaders, parseTE, parseCL, addTrailerKeys, hte, hcl, hch, ok, CR, SP, bind, Except.bind, pure, Except.pure])]
+          (by simp [byteStep, hp, endOfHeaders, parseTE, parseCL, addTrailerKeys, noBodyOverride, hnb, hte, hcl, hch, ok, CR, SP, bind, Except.bind, pure, Except.pure])]
     rw [spec_step g _ _ LF _ _ (handleMessage g { p with contentLength := -1, st := .headerOverLF, headerExists := false })
           .next [.complete] (by simp [block])
           (by simp [byteStep, hch, ok])]
+    simp
+
+/-- blank line of a bodiless response (1xx / 204 / 304) without framing fields: complete, reported length 0 -/
+theorem end_bodiless (g : Cfg) (p : P) (tok rest : Bytes) (acc : List Ev)
+    (hp : p.st = .headerKeyBefore) (hq : Quiet p) (hte : p.te = []) (hcl : p.cl = []) (hch : p.chunked = false)
+    (hnb : p.noBody = true) :
+    ∃ p', Idle g p' ∧ specFeed (M g) p tok ([CR, LF] ++ rest) acc =
+      specFeed (M g) p' [] rest (acc ++ [.contentLength 0, .complete]) := by
+  refine ⟨handleMessage g { p with contentLength := 0, chunked := false, st := .headerOverLF, headerExists := false }, ?_, ?_⟩
+  · exact idle_handleMessage g _ ⟨hq.proto, hq.statusCode, hq.status, hq.hKey, hq.hVal⟩ rfl
+  · simp only [List.cons_append, List.nil_append]
+    rw [spec_step g p tok CR _ acc { p with contentLength := 0, chunked := false, st := .headerOverLF } .next [.contentLength 0]
+          (by simp [block, hp])
+          (by simp [byteStep, hp, endOfHeaders, parseTE, parseCL, addTrailerKeys, noBodyOverride, hnb, hte, hcl, ok, CR, SP, bind, Except.bind, pure, Except.pure])]
+    rw [spec_step g _ _ LF _ _ (handleMessage g { p with contentLength := 0, chunked := false, st := .headerOverLF, headerExists := false })
+          .next [.complete] (by simp [block])
+          (by simp [byteStep, ok])]
     simp
 
 set_option maxRecDepth 8192 in
@@ -84,7 +103,7 @@ theorem endOfHeaders_length (p : P) (v : Bytes) (hte : p.te = []) (hcl : p.cl = 
 /-- blank line + body of a message framed by Content-Length -/
 theorem end_length (g : Cfg) (p : P) (tok rest : Bytes) (acc : List Ev) (v body : Bytes)
     (hp : p.st = .headerKeyBefore) (hq : Quiet p) (hte : p.te = []) (hcl : p.cl = [v]) (hch : p.chunked = false)
-    (hbh : p.bodyHeld = 0)
+    (hnb : p.noBody = false) (hbh : p.bodyHeld = 0)
     (hne : trimRightSpaces v ≠ []) (hdig : (trimRightSpaces v).all isNum = true) (hlt : decimal (trimRightSpaces v) < 2 ^ 62)
     (hlen : body.length = decimal (trimRightSpaces v))
     (hmax : g.maxBody = 0 ∨ body.length ≤ g.maxBody) :
@@ -98,7 +117,7 @@ theorem end_length (g : Cfg) (p : P) (tok rest : Bytes) (acc : List Ev) (v body 
   simp only [List.cons_append, List.nil_append, List.append_assoc]
   rw [spec_step g p tok CR _ acc { p with contentLength := Int.ofNat body.length, st := .headerOverLF } .next
         [.contentLength body.length] (by simp [block, hp])
-        (by simp [byteStep, hp, hE, addTrailerKeys, hch, ok, CR, SP, pure, Except.pure])]
+        (by simp [byteStep, hp, hE, addTrailerKeys, noBodyOverride, hnb, hch, ok, CR, SP, pure, Except.pure])]
   by_cases hb : body = []
   · subst hb
     refine ⟨handleMessage g { p with contentLength := 0, st := .headerOverLF, headerExists := false }, ?_, ?_⟩
@@ -150,10 +169,10 @@ theorem parseCL_ok_of_valid (p : P) (h : clValuesOk p.cl = true) : ∃ q, parseC
 theorem framing_chunked (p : P) (v : Bytes) (hte : p.te = [v]) (hv : (trim v).map toLower = str "chunked")
     (hclv : clValuesOk p.cl = true)
     (hforb : (declaredKeys p.tr).any forbiddenTrailer = false) (htrailer : p.trailer = []) :
-    ∃ p1, endOfHeaders p = .ok p1 ∧ p1.contentLength = -1 ∧
+    ∃ p1, endOfHeaders p = .ok p1 ∧ p1.contentLength = -1 ∧ p1.noBody = p.noBody ∧
       addTrailerKeys p1 = .ok { p with te := [], cl := [], tr := [], chunked := true, contentLength := -1,
                                        trailer := (declaredKeys p.tr).eraseDups } := by
-  refine ⟨{ p with te := [], cl := [], chunked := true, contentLength := -1 }, ?_, rfl, ?_⟩
+  refine ⟨{ p with te := [], cl := [], chunked := true, contentLength := -1 }, ?_, rfl, rfl, ?_⟩
   · obtain ⟨q, hq⟩ := parseCL_ok_of_valid p hclv
     have hte' : parseTE p = .ok { p with te := [], cl := [], chunked := true } := by
       unfold parseTE
@@ -172,19 +191,20 @@ theorem framing_chunked (p : P) (v : Bytes) (hte : p.te = [v]) (hv : (trim v).ma
 theorem end_chunked (g : Cfg) (p : P) (tok rest : Bytes) (acc : List Ev) (v : Bytes)
     (hp : p.st = .headerKeyBefore) (hte : p.te = [v]) (hv : (trim v).map toLower = str "chunked")
     (hclv : clValuesOk p.cl = true)
-    (hforb : (declaredKeys p.tr).any forbiddenTrailer = false) (htrailer : p.trailer = []) :
+    (hforb : (declaredKeys p.tr).any forbiddenTrailer = false) (htrailer : p.trailer = []) (hnb : p.noBody = false) :
     specFeed (M g) p tok ([CR, LF] ++ rest) acc =
       specFeed (M g)
         { p with te := [], cl := [], tr := [], chunked := true, contentLength := -1,
                  trailer := (declaredKeys p.tr).eraseDups, st := .chunkSizeBefore, headerExists := false }
         [] rest (acc ++ [.contentLength (-1)]) := by
-  obtain ⟨p1, h1, h2, h3⟩ := framing_chunked p v hte hv hclv hforb htrailer
+  obtain ⟨p1, h1, h2, h2n, h3⟩ := framing_chunked p v hte hv hclv hforb htrailer
+  have hnb1 : p1.noBody = false := by rw [h2n, hnb]
   simp only [List.cons_append, List.nil_append]
   rw [spec_step g p tok CR _ acc
         { p with te := [], cl := [], tr := [], chunked := true, contentLength := -1,
                  trailer := (declaredKeys p.tr).eraseDups, st := .headerOverLF } .next [.contentLength (-1)]
         (by simp [block, hp])
-        (by simp [byteStep, hp, h1, h2, h3, ok, CR, SP])]
+        (by simp [byteStep, hp, h1, h2, h3, noBodyOverride, hnb1, ok, CR, SP])]
   rw [spec_step g _ _ LF _ _
         { p with te := [], cl := [], tr := [], chunked := true, contentLength := -1,
                  trailer := (declaredKeys p.tr).eraseDups, st := .chunkSizeBefore, headerExists := false } .next []
